@@ -20,22 +20,25 @@ CHECKS = {
             "Multiset oracle on self-identifying examples (unique ids, payload recomputed from the id) over datasets x "
             "interfaces x shuffle sizes x parallelism straddling the prefill/buffer/thread boundaries, with worker "
             "completion orders forced by a FIFO gate (fb/npz, incl. the Rust threads) and seeded delay injection "
-            "(TFRecord); a non-idempotent process_record reveals 0/1/2 applications; overlapping passes included.",
+            "(TFRecord); a non-idempotent process_record reveals 0/1/2 applications; overlapping passes, threads sharing a handle and "
+            "re-iterated tf.data pipeline objects (full, abandoned, full) included.",
             "TensorFlow-internal threads can only be perturbed, not controlled.",
             "runtime monitor: exactly-once oracle over recorded reader output under forced completion orders",
             "DESIGN.md §3 C02"),
     "C03": ("exploration",
             "Sequence oracle: with shuffle=0 every pass (same handle, reopened, other parallelism, other forced "
             "completion order incl. reversed) must yield the identical sequence, monotone in the write sequence per "
-            "session/writer/split; FIFO gate forces adversarial completion orders.",
+            "session/writer/split; FIFO gate forces adversarial completion orders; shuffled passes run on the same handle "
+            "before ordered ones; selection options (shards, shard_filter, custom_metadata_type_limit) on interleaved "
+            "metadata kinds must yield an increasing subsequence of the full pass.",
             "Order across different sessions is not asserted.",
             "runtime monitor: order/determinism oracle under FIFO-gated completion orders", "DESIGN.md §3 C03"),
     "C04": ("exploration",
             "Independent auditor (raw JSON walk, every shard decoded with the format's own decoder) after every session "
             "of generated histories + icontract postconditions on ShardsList.write_config, merge_shard_infos, "
             "Shard.write + handle-vs-fresh-open comparison.",
-            "Histories contain only valid writes; multi-writer sessions run single_process=True here (C09 covers real "
-            "processes).",
+            "Refused writes inside completed sessions are shape/rank violations only; multi-writer sessions run "
+            "single_process=True here (C09 covers real processes).",
             "runtime monitor: offline audit of the metadata tree after each session + online contracts",
             "DESIGN.md §3 C04"),
     "C05": ("fault_enumeration",
@@ -51,7 +54,7 @@ CHECKS = {
             "reachable shards match digests) and iterated by a fresh reader: earlier sessions intact, only whole "
             "examples that were written. After every third crash state a normal 'recovery' session is run into the "
             "crashed dataset (committed data must survive it), and live cases run a slow writer while a reader keeps "
-            "opening and iterating the dataset.",
+            "opening and iterating the dataset. Writer processes run with TMPDIR on another file system.",
             "Process crash with the OS staying up (no power loss); crash points = syscall boundaries seen by strace.",
             "crash-point enumeration via strace fault injection + offline auditor", "DESIGN.md §3 C06"),
     "C07": ("fault_enumeration",
@@ -65,14 +68,15 @@ CHECKS = {
     "C08": ("exploration",
             "Reference-model multiset oracle after every session of generated histories (reused/nested sub-directories, "
             "multi-writer, reopen vs keep): iteration == everything accepted so far, payloads intact, sessions do not "
-            "raise; Dataset.create on an existing dataset refused with the tree digest unchanged.",
+            "raise; Dataset.create on an existing dataset refused with the tree digest unchanged; a failed session between "
+            "completed ones (later sessions add exactly their own); relative dataset root with chdir between sessions.",
             "One live handle at a time.", "runtime monitor: history + reference model (append-only multiset)",
             "DESIGN.md §3 C08"),
     "C09": ("exploration",
             "Real-process write_multiprocessing runs (fresh process each) with seeded delays in the feed function are "
             "compared with the single_process run of the same writers: per-split multiset, per-writer order, return "
             "values in argument order, audited metadata, check(); per-pid written path sets (from the writers' own "
-            "logs and strace in thorough) must be disjoint.",
+            "logs and strace) must be disjoint; a third of the cases make the call twice on one dataset.",
             "Worker scheduling is perturbed by delays/CPU load, not controlled.",
             "differential runtime oracle (parallel vs sequential) + per-process write-set monitor", "DESIGN.md §3 C09"),
     "C10": ("exploration",
@@ -90,13 +94,15 @@ CHECKS = {
     "C12": ("exploration",
             "Selected shard set computed from the audited shard list by the statement's definition; each interface's id "
             "multiset under shards=k / shard_filter / custom_metadata_type_limit compared with the ids stored in those "
-            "shards; combined options compared across interfaces; empty selections must raise.",
+            "shards; combined options compared across interfaces; empty selections must raise; differently restricted "
+            "streams created first on one Dataset object and consumed later must each honour their own options.",
             "Enumeration order taken from the raw metadata walk (own shards, then children depth-first).",
             "differential runtime oracle: interface output vs contents of the selected shard files", "DESIGN.md §3 C12"),
     "C13": ("exploration",
             "Controlled scheduler driving the real LazyPool at queue-operation granularity (random, sticky, PCT, "
             "preemption-bounded DFS for T<=2,n<=3) with a virtual clock (timed waits, late-firing timers, pausing "
-            "consumers, slow calls): multiset, no deadlock state, workers terminate after the context, pool reusable, "
+            "consumers, slow calls): multiset, no deadlock state, workers terminate after the context, pool reusable "
+            "(after exit, and inside the same context after a caught failure or an ended early exit), "
             "failures of Exception/BaseException/SystemExit type; plus uncontrolled real-thread stress with the "
             "quiescence oracle.",
             "Shims cover queue.Queue/time.sleep/Thread.start; other primitives fall back to the stress mode.",
@@ -110,7 +116,8 @@ CHECKS = {
             "runtime monitor: read-ahead counters on instrumented sources and observed shard opens", "DESIGN.md §3 C14"),
     "C15": ("exploration",
             "Differential Python-vs-Rust reader on fb datasets under FIFO-gated completion orders (T<,=,>n), early drop "
-            "at every position with thread counts from /proc/self/task before/after, overlapping iterators; native "
+            "at every position with thread counts from /proc/self/task before/after, overlapping iterators, repeating "
+            "streams epoch by epoch (logical-step guard against empty epochs); native "
             "harness (#[path] wrapper crate) with out-of-order sleeps and in-flight counters, also under "
             "AddressSanitizer in the thorough tier.",
             "TSan/Miri unavailable (no rust-src); ASan needs the nightly toolchain present in the image.",
@@ -120,14 +127,17 @@ CHECKS = {
             "Runtime monitor: a postcondition contract on hash_checksums plus explicit comparison of every "
             "returned/stored digest with independent implementations (coreutils, openssl, pure-Python XXH32/64, "
             "published vectors) over file sizes around every multiple of the read buffer and algorithm tuples "
-            "with permutations/repetitions; concurrent hashing from threads included.",
+            "with permutations/repetitions; concurrent hashing from threads included; datasets audited after every "
+            "session incl. reused sub-directories and a non-ASCII shard list whose bytes need more buffers than its "
+            "characters.",
             "Trusts coreutils/openssl/hashlib one-shot digests; xxh128 only has one-shot xxhash + vectors.",
             "runtime contract (icontract) + differential oracle vs external digest tools", "DESIGN.md §3 C16"),
     "C17": ("exploration",
             "Crafted metadata (path grammar in every path-valued field) and writer sub-directory arguments; a child "
             "process loads/checks/iterates/writes under strace -f and a Python audit hook; any file-system call naming a "
             "path under the zone but outside the root, an accepted outside path, or a change of the canary tree is a "
-            "violation.",
+            "violation; one dataset per batch is opened by a relative path and used after a chdir into a directory "
+            "holding another dataset of the same name.",
             "Symbolic links are out of scope.", "system-call trace monitor (strace) + audit hook over a path grammar",
             "DESIGN.md §3 C17"),
     "C18": ("exploration",
@@ -140,14 +150,15 @@ CHECKS = {
     "C19": ("exploration",
             "Prefixes of m in {2,3,5} epochs of repeat=True streams via islice + explicit close: membership, "
             "N-periodicity when unshuffled, per-epoch permutation for the Rust interface, overlapping repeating "
-            "iterators.",
+            "iterators, consumers overwriting yielded arrays in place, re-iterated repeating tf.data pipelines.",
             "'Forever' is restated as 'm epochs for every m tried'.", "runtime monitor on bounded stream prefixes",
             "DESIGN.md §3 C19"),
     "C20": ("exploration",
             "Random descriptions (unicode, nested JSON custom metadata at dataset/attribute/shard level, every "
             "setting) compared after reopen; relocation (copy/move to nested/unicode/blank/relative targets, '..' "
-            "spellings): open, check, iterate identically, accept further writing; version triples around the running "
-            "version must be refused iff newer.",
+            "spellings, decomposed unicode): open, check, iterate identically, accept further writing; version triples "
+            "around the running version must be refused iff newer, also with whole other releases (fresh interpreters "
+            "with another sedpack.__version__) writing and reading through the ordinary API.",
             "Running version varied by patching sedpack.__version__ (read at call time).",
             "runtime differential oracle (before/after reopen and relocation) + version-gate table", "DESIGN.md §3 C20"),
 }
